@@ -46,6 +46,7 @@ class FnResult:
         self.cover = None
         self.seconds = 0.0
         self.obl_names = []
+        self.facts_used = []
 
     def to_dict(self):
         return self.__dict__
@@ -59,6 +60,7 @@ class Verifier:
         self.trivial = 0
         self.obl_names = set()
         self.inlined = set()
+        self.facts_used = set()
         self.dropped = set()
         self.paths = 0
         self.entry_args = {}
@@ -103,7 +105,7 @@ class Verifier:
         # typing facts about arguments (in the entry heap)
         for n, v in args.items():
             if not (n == "self" and fdef.name == "__init__"):
-                run.assume_typed(v)
+                run.assume_typed_deep(v)
         run.frames.append(Frame(self.qname, fdef, cls, env, mod))
         self.entry_args = args
         self.pre_heap = run.heap.copy()
@@ -112,6 +114,9 @@ class Verifier:
             for nm, g in _named(c.requires(cc), "requires"):
                 run.assume(g)
         self.pre_heap = run.heap.copy()  # requires may have touched (declared) arrays
+        if c.entry_facts is not None:
+            for fct in c.entry_facts(Ctx(args, self.pre_heap, self.pre_heap, run=run, alloc0=self.alloc_entry)) or []:
+                run.use_fact(fct)
         return fdef, cls, kind
 
     def exit_normal(self, run, ret, cls, fdef):
@@ -130,6 +135,9 @@ class Verifier:
         for exc, cond in c.raises.items():
             run.oblige("noraise.%s" % exc, z3.Not(_b(cond(cc0))), site="exit", kind="raises")
         cc = Ctx(args, self.pre_heap, run.heap, res=res, run=run, alloc0=self.alloc_entry)
+        if c.exit_facts is not None:
+            for fct in c.exit_facts(cc) or []:
+                run.use_fact(fct)
         if c.ensures is not None:
             for nm, g in _named(c.ensures(cc), "post"):
                 run.oblige("post.%s" % nm, g, site="exit", kind="post")
@@ -210,10 +218,12 @@ class Verifier:
         res.trivial = self.trivial
         res.inlined = sorted(self.inlined)
         res.dropped = sorted(self.dropped)
+        res.facts_used = sorted(self.facts_used)
         res.obl_names = sorted(self.obl_names | {o.name for o in self.obligations.values()})
         if res.status == "ok":
-            for o in self.obligations.values():
-                discharge(o, self)
+            obls = list(self.obligations.values())
+            discharge_all(obls, self)
+            for o in obls:
                 res.obligations.append(
                     {
                         "fn": o.fn,
@@ -229,6 +239,37 @@ class Verifier:
                 )
         res.seconds = time.time() - t0
         return res
+
+
+_POOL_STATE = {}
+
+
+def _discharge_idx(i):
+    o = _POOL_STATE["obls"][i]
+    discharge(o, _POOL_STATE["ver"])
+    return (i, o.status, o.backend, o.seconds, o.model)
+
+
+def discharge_all(obls, verifier, jobs=None):
+    """Obligations are independent SMT queries: discharge them in forked workers (z3 terms live in
+    the parent's memory image; only plain results travel back)."""
+    import multiprocessing as mp
+
+    jobs = jobs or int(os.environ.get("PYVC_DISCHARGE_JOBS", "6"))
+    if len(obls) < 6 or jobs <= 1:
+        for o in obls:
+            discharge(o, verifier)
+        return
+    _POOL_STATE["obls"] = obls
+    _POOL_STATE["ver"] = verifier
+    ctx = mp.get_context("fork")
+    try:
+        with ctx.Pool(min(jobs, len(obls))) as pool:
+            for i, status, backend, seconds, model in pool.imap_unordered(_discharge_idx, range(len(obls)), chunksize=2):
+                o = obls[i]
+                o.status, o.backend, o.seconds, o.model = status, backend, seconds, model
+    finally:
+        _POOL_STATE.clear()
 
 
 def _b(x):
@@ -251,14 +292,16 @@ def discharge(o, verifier=None):
         m = s.model()
         o.model = render_model(m, verifier)
     else:
+        reason = s.reason_unknown()
         # second opinion: cvc5 on the SMT-LIB dump
-        st = cvc5_check(s.to_smt2())
+        st = cvc5_check(s.to_smt2(), timeout_s=15)
         if st == "unsat":
             o.status = "discharged"
             o.backend = "cvc5"
         else:
             o.status = "undecided"
             o.backend += "+cvc5:" + st
+            o.model = {"reason_unknown": reason}
     o.seconds = time.time() - t0
 
 
